@@ -116,6 +116,26 @@ func runImpl(t *testing.T, idx int, cfg impl.Cfg, src opSource, detie *common.Rn
 				return false
 			}
 			v := im.Snapshot()
+			if o.Kind == "ipcunlock" && o.Key == "" && r.Ok {
+				// which hold of that name did the implementation pick (Go map order decides)?
+				gone := map[string]bool{}
+				for _, hs := range before.Listing {
+					for _, hd := range hs {
+						gone[hd] = true
+					}
+				}
+				for _, hs := range v.Listing {
+					for _, hd := range hs {
+						delete(gone, hd)
+					}
+				}
+				for hd := range gone {
+					f := strings.Split(hd, "/")
+					if len(f) == 3 && f[0] == impl.Tok(o.Name) {
+						o.Chosen = impl.UnTok(f[1])
+					}
+				}
+			}
 			h.Steps = append(h.Steps, Step{Op: o, Resp: r, Impl: im.Line(r, v), View: v, Before: &before, Now: im.Now()})
 			src.Observe(o, r, im.Now())
 			return true
@@ -329,6 +349,9 @@ func TestSeq(t *testing.T) {
 			})
 		}
 	})
+	if prop == "C12" {
+		shardReplay(t, hs, res)
+	}
 	// corpus and witnesses first in the list so they are always compared and monitored
 	hs = append(corpus(t, prop), hs...)
 	if err := runModel(hs); err != nil {
@@ -462,4 +485,53 @@ func corpus(t *testing.T, prop string) []*History {
 		out = append(out, runImpl(t, -1-i, c.Cfg, &fixedSource{ops: c.Ops}, nil))
 	}
 	return out
+}
+
+
+// shardReplay (C12): every history is replayed on the real server under the other shard counts; the
+// response stream must be identical (implementation against implementation, no model involved).
+func shardReplay(t *testing.T, hs []*History, res *common.Result) {
+	counts := []uint32{0, 1, 2, 16, 1000}
+	var mu sync.Mutex
+	t.Run("shards", func(t *testing.T) {
+		for w := 0; w < 16; w++ {
+			w := w
+			t.Run(fmt.Sprint("w", w), func(t *testing.T) {
+				t.Parallel()
+				for i := w; i < len(hs); i += 16 {
+					h := hs[i]
+					if h == nil || h.Fatal != "" {
+						continue
+					}
+					for _, n := range counts {
+						if n == h.Cfg.Shards {
+							continue
+						}
+						cfg := h.Cfg
+						cfg.Shards = n
+						g := runImpl(t, h.Idx, cfg, &fixedSource{ops: h.Ops()}, nil)
+						mu.Lock()
+						res.Count("shard-replays")
+						for j := range h.Steps {
+							if j >= len(g.Steps) {
+								break
+							}
+							a, b := channels(h.Steps[j].Impl), channels(g.Steps[j].Impl)
+							if a["r"] != b["r"] || a["L"] != b["L"] || a["T"] != b["T"] {
+								rp := replay(h, j, "r")
+								rp["shards_a"], rp["shards_b"] = h.Cfg.Shards, n
+								rp["impl_b"] = g.Steps[j].Impl
+								rp["model_agrees"] = false
+								res.Find(common.Finding{Kind: "violation", Property: "C12", Signature: "seq:shard-dependence",
+									What:   fmt.Sprintf("the same history answers differently with %d and with %d shards after %q: %q vs %q", h.Cfg.Shards, n, h.Steps[j].Op.Line(), a["r"], b["r"]),
+									Replay: rp})
+								break
+							}
+						}
+						mu.Unlock()
+					}
+				}
+			})
+		}
+	})
 }
